@@ -330,6 +330,8 @@ func (ex *Exec) chanSend(ch *vchan, v value) {
 	if w := popActive(&ch.recvq); w != nil {
 		w.sel.done, w.sel.chosen, w.sel.val, w.sel.ok = true, w.caseIdx, v, true
 		ex.hbEdge(ex.cur, w.g)
+		// the receiver is runnable now: it may run before the sender's next step
+		ex.preemptPoint("chan send woke a receiver")
 		return
 	}
 	if len(ch.buf) < ch.cap {
@@ -470,6 +472,8 @@ func (ex *Exec) doSelect(fr *frame, instr *ssa.Select) value {
 			if w := popActive(&c.ch.recvq); w != nil {
 				w.sel.done, w.sel.chosen, w.sel.val, w.sel.ok = true, w.caseIdx, c.val, true
 				ex.hbEdge(ex.cur, w.g)
+				// the receiver is runnable now: it may run before the sender's next step
+				ex.preemptPoint("select send woke a receiver")
 			} else {
 				c.ch.buf = append(c.ch.buf, c.val)
 				c.ch.bufvc = append(c.ch.bufvc, ex.hbSnapshot(ex.cur))
